@@ -232,29 +232,33 @@ func vEmit(d Observer[int64], ctx context.Context, st vStep) {
 // really reaches the operator's observer (no subscriber in between).
 
 type vProbe struct {
-	name      string
-	subs      int
-	live      int // subscriptions neither unsubscribed nor ended by the source's own terminal
-	teardowns int
-	torn      []int  // per subscription: number of times its teardown ran
-	ended     []bool // per subscription: the source emitted its own terminal
-	ctxs      []context.Context
-	dests     []Observer[int64]
-	script    []vStep   // played synchronously inside Subscribe when cold
-	scripts   [][]vStep // if set: the n-th subscription plays scripts[n] (Complete when exhausted)
-	objs      []Subscription
-	closing   []bool
-	overlap   bool // a subscription was made while an earlier one was still live
-	maxLive   int  // the largest number of simultaneously live subscriptions seen
-	yieldSub  bool // vYield inside SubscribeWithContext (widens the window for concurrent subscribers)
-	yieldEmit bool // vYield before each emission of a cold script (concurrent subscriptions interleave)
-	cold      bool
-	mlog      *[]vMStep // multi-source driver: what this probe emits by itself at subscription time is logged here
-	midx      int       // its source index there
-	panicTeardown bool // the teardown of every subscription of this probe panics (after doing its work)
-	asyncPlay bool // scripts are played from a thread of their own after Subscribe has returned
-	syncTerm  int  // if set: the next subscription emits this terminal synchronously inside Subscribe (once)
-	itemCtx   bool // attach a per-item marker to the context of each Next
+	name          string
+	subs          int
+	live          int // subscriptions neither unsubscribed nor ended by the source's own terminal
+	teardowns     int
+	torn          []int  // per subscription: number of times its teardown ran
+	ended         []bool // per subscription: the source emitted its own terminal
+	ctxs          []context.Context
+	dests         []Observer[int64]
+	script        []vStep   // played synchronously inside Subscribe when cold
+	scripts       [][]vStep // if set: the n-th subscription plays scripts[n] (Complete when exhausted)
+	objs          []Subscription
+	closing       []bool
+	overlap       bool // a subscription was made while an earlier one was still live
+	unreleased    bool // a subscription was made before the teardown of an earlier one had run
+	maxLive       int  // the largest number of simultaneously live subscriptions seen
+	yieldSub      bool // vYield inside SubscribeWithContext (widens the window for concurrent subscribers)
+	yieldEmit     bool // vYield before each emission of a cold script (concurrent subscriptions interleave)
+	cold          bool
+	mlog          *[]vMStep // multi-source driver: what this probe emits by itself at subscription time is logged here
+	midx          int       // its source index there
+	yieldTeardown bool      // vYield at the start of every teardown (makes "released before ..." observable)
+	panicTeardown bool      // the teardown of every subscription of this probe panics (after doing its work)
+	pend          [][]vStep // asyncPlay: per subscription, the steps not yet emitted
+	asyncOwn      bool      // asyncPlay: each attempt plays its script from its own thread instead of being driven
+	asyncPlay     bool      // scripts are played from a thread of their own after Subscribe has returned
+	syncTerm      int       // if set: the next subscription emits this terminal synchronously inside Subscribe (once)
+	itemCtx       bool      // attach a per-item marker to the context of each Next
 }
 
 var _ Observable[int64] = (*vProbe)(nil)
@@ -267,6 +271,12 @@ func (p *vProbe) register(ctx context.Context, d Observer[int64]) (int, func()) 
 	i := p.subs
 	if p.live > 0 {
 		p.overlap = true
+	}
+	for j := 0; j < i; j++ {
+		// an earlier subscription that has neither been torn down nor closed by the probe itself
+		if p.torn[j] == 0 && !p.closing[j] {
+			p.unreleased = true
+		}
 	}
 	p.subs++
 	p.live++
@@ -281,6 +291,9 @@ func (p *vProbe) register(ctx context.Context, d Observer[int64]) (int, func()) 
 	return i, func() {
 		if p.closing[i] {
 			return // the source closes its own subscription after its terminal
+		}
+		if p.yieldTeardown {
+			vYield() // releasing a source takes time: whoever was told "it is over" may run first
 		}
 		p.teardowns++
 		p.torn[i]++
@@ -311,18 +324,29 @@ func (p *vProbe) play(i int) {
 		p.syncTerm = 0
 		p.emitAt(i, vStep{kind: k})
 	} else if p.scripts != nil && p.asyncPlay {
+		// the attempt's notifications are emitted later, by the harness (vDrive), from another
+		// thread than the one that subscribed
 		steps := []vStep{{kind: vkComplete}}
 		if i < len(p.scripts) {
 			steps = p.scripts[i]
 		}
-		vGo(func() {
-			for _, st := range steps {
-				vYield()
-				if p.torn[i] == 0 {
-					p.emitAt(i, st)
+		if p.asyncOwn {
+			// ... or right away, from a thread of the attempt's own (it may end before the
+			// subscriber has done anything with the subscription it was handed)
+			vGo(func() {
+				for _, st := range steps {
+					vYield()
+					if p.torn[i] == 0 {
+						p.emitAt(i, st)
+					}
 				}
+			})
+		} else {
+			for len(p.pend) <= i {
+				p.pend = append(p.pend, nil)
 			}
-		})
+			p.pend[i] = append([]vStep{}, steps...)
+		}
 	} else if p.scripts != nil {
 		if i < len(p.scripts) {
 			for _, st := range p.scripts[i] {
@@ -361,6 +385,28 @@ func (p *vProbe) emitAt(i int, st vStep) {
 		// like every real source, the probe's subscription is closed once it has terminated
 		p.closing[i] = true
 		p.objs[i].Unsubscribe()
+	}
+}
+
+// vDrive (asyncPlay): emits the pending steps one at a time, each after everything else has come
+// to rest — so whoever waits for the attempt to end is parked when it does end.
+func (p *vProbe) vDrive() {
+	for n := 0; n < 64; n++ {
+		vQuiesce()
+		k := -1
+		for i := range p.pend {
+			if len(p.pend[i]) > 0 {
+				k = i
+			}
+		}
+		if k < 0 {
+			return
+		}
+		st := p.pend[k][0]
+		p.pend[k] = p.pend[k][1:]
+		if p.torn[k] == 0 && !p.ended[k] {
+			p.emitAt(k, st)
+		}
 	}
 }
 
